@@ -2,3 +2,5 @@ import Rp2.Props.C15
 #print axioms Rp2.C15.realized_plus_unrealized_is_acquired
 #print axioms Rp2.C15.weights_add_to_one
 #print axioms Rp2.C15.unit_cost_is_cost_over_balance
+#print axioms Rp2.C15.model_lists_positive_balances
+#print axioms Rp2.C15.model_row_columns
